@@ -18,6 +18,7 @@ pub fn run(entry: &str, v: &Value) -> Option<Result<String, String>> {
         "svs_depths_and_slow_consumer" => svs_depths_and_slow_consumer(),
         "fleet_wide_broadcast" => fleet_wide_broadcast(v),
         "fleet_health_probe_malformed" => fleet_health_probe_malformed(),
+        "async_fleet_abandoned_send_recovers" => rt2(async_fleet_abandoned_send_recovers()),
         "ws_default_limits" => rt2(ws_default_limits()),
         "transfer_registry_map" => transfer_registry_map(),
         "ws_handshake_only_hook" => ws_handshake_only_hook::run(),
@@ -1970,4 +1971,56 @@ fn svs_depths_and_slow_consumer() -> Result<String, String> {
         return Err(format!("slow consumer: stream ended={last} with {} of 100 bytes", got.len()));
     }
     Ok(format!("{n} depth/compression combinations byte-exact; slow consumer served to the end marker"))
+}
+
+// ---------------------------------------------------------------------------------------------
+// C19: a transport failure never leaves the node wedged. Here the failure is a fleet call whose
+// future is dropped while its (large) request is still being written to a node that has stopped
+// reading: the cached connection is torn. The next call must classify that as a transport failure,
+// drop the connection, reconnect and succeed (max_attempts 2, the node accepts new connections).
+async fn async_fleet_abandoned_send_recovers() -> Result<String, String> {
+    use std::io::Write as _;
+    let listener = std::net::TcpListener::bind("127.0.0.1:0").map_err(|e| e.to_string())?;
+    let port = listener.local_addr().unwrap().port();
+    let conns = Arc::new(AtomicUsize::new(0));
+    let c2 = conns.clone();
+    std::thread::spawn(move || {
+        for (i, stream) in listener.incoming().enumerate() {
+            let Ok(stream) = stream else { break };
+            c2.fetch_add(1, Ordering::SeqCst);
+            std::thread::spawn(move || {
+                if i == 0 {
+                    // the first connection never reads: the client's large write stalls
+                    std::thread::sleep(Duration::from_secs(8));
+                    return;
+                }
+                let mut reader = std::io::BufReader::new(stream.try_clone().unwrap());
+                let mut writer = std::io::BufWriter::new(stream);
+                while let Ok(req) = repe::read_message(&mut reader) {
+                    let resp = repe::Message::builder().id(req.header.id).body_json(&json!("pong")).unwrap().build();
+                    if repe::write_message(&mut writer, &resp).is_err() || writer.flush().is_err() {
+                        return;
+                    }
+                }
+            });
+        }
+    });
+    let cfg = repe::NodeConfig::new("127.0.0.1", port).unwrap().with_name("n").unwrap().with_timeout(Duration::from_secs(2)).unwrap();
+    let opts = repe::FleetOptions { retry_policy: repe::RetryPolicy { max_attempts: 2, delay: Duration::from_millis(10) }, ..Default::default() };
+    let fleet = repe::AsyncFleet::with_options(vec![cfg], opts).map_err(|e| e.to_string())?;
+    let big = json!("x".repeat(32 << 20));
+    let first = tokio::time::timeout(Duration::from_millis(400), fleet.call_json("n", "/big", Some(&big))).await;
+    if first.is_ok() {
+        return Ok("inconclusive: the 32 MiB call to a node that does not read completed within 400 ms".into());
+    }
+    // the caller gave up mid-send; the node is reachable (it accepts new connections and answers)
+    let second = tokio::time::timeout(Duration::from_secs(20), fleet.call_json("n", "/ping", Some(&json!(1)))).await;
+    match second {
+        Ok(Ok(r)) => match r.into_result() {
+            Ok(_) => Ok(format!("recovered on a new connection ({} connections)", conns.load(Ordering::SeqCst))),
+            Err(e) => Err(format!("after a fleet call was abandoned mid-send, the next call (max_attempts 2, node reachable) failed with `{e}`: the torn connection was not treated as a transport failure, so it was neither retried nor dropped -- the node is wedged")),
+        },
+        Ok(Err(e)) => Err(format!("fleet error: {e}")),
+        Err(_) => Err("the call after an abandoned send did not return within 20 s".into()),
+    }
 }
